@@ -24,6 +24,12 @@ CLAIMED = {
  'C16': dict(cat='proof', tech='Coq proof over translator-generated definitions (DTC/lamps/DM22) and the DM1 payload model + item correspondence + end-to-end oracle',
    text='DTC pack/unpack inverse and at the J1939-73 bit positions for all 19/5/7-bit values; all 5^4 lamp combinations (finite, exhaustive by vm_compute lifted with forallb_forall); DM1 parse(build) = identity for every non-empty list of in-range trouble codes (induction); DM22 layout; definitions regenerated from /repo, DM1 payload model tied by item correspondence; real DM1 sender/subscribers on real stacks with 1..440 codes, cycle times and stop_send checked by an oracle',
    note='the cyclic-send state machine is checked on the real code only (oracle) plus C12 timer theorems; FD transports of DM1 are exercised by C02/C11 scenarios, not here'),
+ 'C05': dict(cat='proof', tech='Coq proof (dispatch by identifier, delivery rule, listener, bystander fold) + exhaustive one-frame enumeration on the real code + correspondence',
+   text='for every PDU1 frame (any PF < 240, any destination/source/priority, any data) to a destination the stack does not accept, notify is the identity with no output (via the C15 identifier theorems); delivery rule as an iff; listener forwards only extended data frames and contains every exception (all flag combinations); any sequence of foreign frames leaves a bystander untouched; all destinations x frame kinds x stack shapes x both layers enumerated on the real code',
+   note='theorems are for the J1939-21 layer and the ECU; the J1939-22 notify is covered by enumeration/oracle here and by the FD model of C02'),
+ 'C06': dict(cat='proof', tech='Coq proof (atomicity, release and abort at the deadline) + exhaustive fault enumeration on the real code + correspondence',
+   text='any set of DT frames carrying fewer bytes than announced delivers nothing (so a lost packet can never produce a truncated/mixed payload), a session past its deadline is released by the job pass with a timeout abort exactly for connection-mode, untouched before; peer abort finishes an originator; every single-frame loss and every silence point of every transfer shape enumerated on both real layers with a follow-up transfer',
+   note='time bounds are relative to the jitter of A3 and the 25 ms probe grid; the J1939-22 layer by fault enumeration/oracle (and C02 model), its theorems are not restated here'),
 }
 props = [json.loads(l) for l in open(os.path.join(ROOT, 'properties.jsonl'))]
 old = {}
